@@ -19,6 +19,7 @@ func main() {
 	replay := flag.String("replay", "", "replay file")
 	only := flag.String("only", "", "case id")
 	budget := flag.Duration("budget", 0, "internal time budget")
+	worker := flag.Bool("worker", false, "run as crash-isolated worker (internal)")
 	flag.Usage = func() { fmt.Fprintln(os.Stderr, "usage: check [flags] <ID>") }
 	flag.Parse()
 	if flag.NArg() != 1 {
@@ -26,6 +27,14 @@ func main() {
 		os.Exit(2)
 	}
 	id := flag.Arg(0)
+	if *worker {
+		w, ok := props.Workers[id]
+		if !ok {
+			os.Exit(2)
+		}
+		hx.ServeWorker(w)
+		return
+	}
 	c, ok := props.Registry[id]
 	if !ok {
 		fmt.Fprintf(os.Stderr, "unknown property %s\n", id)
